@@ -418,6 +418,11 @@ func (m *ServeMux) iqRouter(t xmlstream.TokenReadEncoder, start *xml.StartElemen
 	}
 	payloadStart, ok := tok.(xml.StartElement)
 	if tok != nil && !ok {
+		// No handler can match a payload that is not an element, but requests
+		// still have to be answered so respond with the fallback first.
+		if e := iqFallback(iq, t, start); e != nil {
+			return e
+		}
 		return fmt.Errorf("xmpp: received IQ with invalid payload of type %T", tok)
 	}
 	h, _ := m.IQHandler(iq.Type, payloadStart.Name)
